@@ -176,14 +176,20 @@ func selectAddrFromSubnetOffset(net1 *phantomNet, offset *big.Int) (*PhantomIP, 
 	}
 
 	ipBigInt := &big.Int{}
+	ipLen := net.IPv6len
 	if v4net := net1.IP.To4(); v4net != nil {
 		ipBigInt.SetBytes(net1.IP.To4())
+		ipLen = net.IPv4len
 	} else if v6net := net1.IP.To16(); v6net != nil {
 		ipBigInt.SetBytes(net1.IP.To16())
 	}
 
 	ipBigInt.Add(ipBigInt, offset)
-	ip := net.IP(ipBigInt.Bytes())
+	if ipBigInt.BitLen() > 8*ipLen {
+		return nil, errors.New("address out of range")
+	}
+	// big.Int.Bytes() drops leading zero bytes; an address needs every byte.
+	ip := net.IP(ipBigInt.FillBytes(make([]byte, ipLen)))
 
 	return &PhantomIP{ip: &ip, supportRandomPort: net1.supportRandomPort}, nil
 }
